@@ -117,7 +117,7 @@ def _show(o):
 
 def _letter_field(o):
     """('Range', 1) for index(<letter range as Range>.1), else None"""
-    if o[0] != "call" or not o[1].endswith("char_to_alphabet_index") or len(o[2]) != 1:
+    if o[0] != "call" or not o[1].endswith(_INDEX_FN_NAME[0]) or len(o[2]) != 1:
         return None
     a = o[2][0]
     if a[0] == "field" and a[1][0] == "downcast":
@@ -235,14 +235,29 @@ def _table_writes(prog, fn, region, subst, depth):
                     out.append((("unknown",), ("unknown",), False, val))
             continue
         g = prog.fns.get(mir.callee_of(t))
-        if g is not None and depth < 3 and "type_resolver_impl" in g.id and g.name != "char_to_alphabet_index":
+        if g is not None and depth < 3 and "type_resolver_impl" in g.id and g.name != _INDEX_FN_NAME[0]:
             sub = {i: _norm(pv.of_operand(a), subst) for i, a in enumerate(t["args"])}
             out += _table_writes(prog, g, None, sub, depth + 1)
     return out
 
 
+
+_INDEX_FN_NAME = ["char_to_alphabet_index"]
+
+def _letter_index_fn(prog):
+    """the function of the DEFtype table's file that turns a letter into its table index: (char) -> usize,
+    not a method (found by what it is, not by its name)"""
+    c = [f for f in prog.fns.values() if f.crate == "rusty_linter" and "type_resolver_impl" in f.id and f.body is not None
+         and f.kind == "fn" and f.argc == 1 and f.body.locals[1]["ty"] == "char" and f.body.locals[0]["ty"] == "usize"]
+    return c[0] if len(c) == 1 else None
+
+
 def r3_default_types(ctx, rule="C13.R3"):
     prog = ctx.prog
+    _lf = _letter_index_fn(prog)
+    if _lf is None:
+        raise CheckError("%s: the function that maps a letter to its index in the DEFtype table was not found" % rule)
+    _INDEX_FN_NAME[0] = _lf.name
     new = ctx.anchor_method("TypeResolverImpl", "new")
     init = None
     for blk in new.body.blocks:
@@ -282,13 +297,13 @@ def r3_default_types(ctx, rule="C13.R3"):
     fill = None
     for _b, t in setf.body.calls():
         g = prog.fns.get(mir.callee_of(t))
-        if g is not None and "type_resolver_impl" in g.id and g.name != "char_to_alphabet_index" and _table_writes(prog, g, None, {}, 0):
+        if g is not None and "type_resolver_impl" in g.id and g.name != _INDEX_FN_NAME[0] and _table_writes(prog, g, None, {}, 0):
             fill = g
     writer = fill or setf
     # same index function on the read and on the write side, and it folds case
-    idx = [f for f in prog.fns.values() if f.name == "char_to_alphabet_index" and "type_resolver_impl" in f.id]
+    idx = [f for f in [_letter_index_fn(prog)] if f is not None]
     if len(idx) != 1:
-        raise CheckError("anchor char_to_alphabet_index")
+        raise CheckError("anchor: letter index function of the DEFtype table")
     read = [f for f in prog.fns.values() if f.name == "char_to_qualifier" and "type_resolver_impl" in f.id]
     if len(read) != 1:
         raise CheckError("anchor char_to_qualifier")
